@@ -82,6 +82,8 @@ def verdicts (E : BlockCipher) (op : String) (args : List String) (res : Option 
     (match c.device with
      | none => if result == "UnknownDevEUI" then [] else [("C16", "unknown-deveui-not-reported")]
      | some (nwkKey, appKey, nonce) =>
+       -- a key-encryption-key the server could not look up: no Success answer (it would carry keys in clear or under a wrong KEK)
+       if c.lookupFails then (if result == "Success" then [("C16", "success-although-a-kek-lookup-failed")] else []) else
        -- the request as the specification sees it
        match hexID 3 q.sender, hexID 8 q.receiver, parseUplink E nwkKey q.rejoin q.phy with
        | some netID, some joinEUI, some up =>
